@@ -95,7 +95,8 @@ def group(rule, values):
     return out
 
 
-CONTEXTS = ["binary", "join", "aggregation", "analytic-sum", "analytic-lag", "unary", "dataset-scalar", "filter", "calc", "keep", "assignment", "union", "no-rule"]
+CONTEXTS = ["binary", "join", "join3", "binary-left-viral-only", "aggregation", "analytic-sum", "analytic-lag", "unary", "dataset-scalar", "filter", "calc", "keep", "assignment", "union",
+            "no-rule"]
 
 
 def make_case(rng):
@@ -105,12 +106,13 @@ def make_case(rng):
     pool = [1, 2, 5, None] if agg else VALS
     keys = [(i, g) for i in (1, 2, 3) for g in ("a", "b")]
     mk = lambda: [[k[0], k[1], float(rng.choice([1, 2, 3, 10])), rng.choice(pool)] for k in keys if rng.random() < 0.85]  # noqa: E731
-    return {"rule": rule, "ctx": ctx, "ds1": mk(), "ds2": mk(), "permseed": rng.randrange(1 << 30)}
+    return {"rule": rule, "ctx": ctx, "ds1": mk(), "ds2": mk(), "ds3": mk(), "permseed": rng.randrange(1 << 30)}
 
 
 def script_of(case):
     ctx = case["ctx"]
-    body = {"binary": "DS_1 + DS_2", "join": "inner_join(DS_1 as a, DS_2 as b keep a#Me_1)", "aggregation": "sum(DS_1 group by Id_2)",
+    body = {"binary": "DS_1 + DS_2", "join": "inner_join(DS_1 as a, DS_2 as b keep a#Me_1)", "join3": "inner_join(DS_1 as a, DS_2 as b, DS_3 as c keep a#Me_1)",
+            "binary-left-viral-only": "DS_4 + DS_5", "aggregation": "sum(DS_1 group by Id_2)",
             "analytic-sum": "sum(DS_1 over (partition by Id_2))", "analytic-lag": "lag(DS_1, 1 over (partition by Id_2 order by Id_1))",
             "unary": "abs(DS_1)", "dataset-scalar": "DS_1 * 2", "filter": "DS_1[filter Me_1 > 1]", "calc": "DS_1[calc Me_2 := Me_1 + 1]", "keep": "DS_1[keep Me_1]",
             "assignment": "DS_1", "union": "union(DS_1, DS_2)", "no-rule": "DS_1 + DS_2"}[ctx]
@@ -125,6 +127,25 @@ def expected(case):
     d2 = {(r[0], r[1]): r for r in case["ds2"]}
     if ctx in ("binary", "join"):
         return {k: {pair(rule, d1[k][3], d2[k][3])} for k in d1 if k in d2}
+    if ctx == "join3":
+        d3 = {(r[0], r[1]): r for r in case.get("ds3", [])}
+        out = {}
+        for k in d1:
+            if k in d2 and k in d3:
+                vals = [d1[k][3], d2[k][3], d3[k][3]]
+                adm = set(group(rule, vals) or [])
+                for perm in itertools.permutations(vals):          # any pairwise fold order is admissible, dropping an operand is not
+                    adm.add(pair(rule, pair(rule, perm[0], perm[1]), perm[2]))
+                out[k] = adm
+        return out
+    if ctx == "binary-left-viral-only":
+        # DS_4 (Id_1 only, carries the viral attribute) + DS_5 (Id_1, Id_2, no viral attribute): the attribute must survive
+        d4 = {}
+        for r in case["ds1"]:
+            d4.setdefault(r[0], r)
+        allv = [r[3] for r in d4.values()]
+        return {(r[0], r[1]): ({d4[r[0]][3], single(rule, d4[r[0]][3])} | (group(rule, allv) or set()) if rule["kind"] != "aggregate" else {d4[r[0]][3]} | (group(rule, allv) or set()))
+                for r in case["ds2"] if r[0] in d4}
     if ctx in ("aggregation",):
         gs = {}
         for r in case["ds1"]:
@@ -155,9 +176,13 @@ def run_case(case, emit):
     agg = case["rule"]["kind"] == "aggregate"
     comps = [("Id_1", "Integer", "Identifier", False), ("Id_2", "String", "Identifier", False), ("Me_1", "Number", "Measure", True),
              ("VAt_1", "Integer" if agg else "String", "Viral Attribute", True)]
-    st = eng.structures(eng.mkds("DS_1", comps), eng.mkds("DS_2", comps))
+    st = eng.structures(eng.mkds("DS_1", comps), eng.mkds("DS_2", comps), eng.mkds("DS_3", comps))
     script = script_of(case)
     ctx = case["ctx"]
+    c4 = [comps[0], comps[2], comps[3]]
+    c5 = comps[:3]
+    if ctx == "binary-left-viral-only":
+        st = eng.structures(eng.mkds("DS_4", c4), eng.mkds("DS_5", c5))
     vals = [r[3] for r in case["ds1"] + case["ds2"]]
     kind = case["rule"]["kind"] + (":" + case["rule"]["fn"] if agg else "")
     bucket = f"{kind}/{ctx}/null={None in vals}/distinct={min(len(set(vals)), 3)}"
@@ -176,7 +201,20 @@ def run_case(case, emit):
         if rep:
             rng.shuffle(r1)
             rng.shuffle(r2)
-        s, r = eng.call(eng.run, script, st, {"DS_1": eng.mkdf([c[0] for c in comps], r1), "DS_2": eng.mkdf([c[0] for c in comps], r2)})
+        if ctx == "binary-left-viral-only":
+            first = {}
+            for x in case["ds1"]:          # the same datapoints in every replica; only their order changes below
+                first.setdefault(x[0], tuple(x))
+            r4 = [(x[0], x[2], x[3]) for x in first.values()]
+            if rep:
+                rng.shuffle(r4)
+            dps = {"DS_4": eng.mkdf([c[0] for c in c4], r4), "DS_5": eng.mkdf([c[0] for c in c5], [x[:3] for x in r2])}
+        else:
+            r3 = [tuple(x) for x in case.get("ds3", [])]
+            if rep:
+                rng.shuffle(r3)
+            dps = {"DS_1": eng.mkdf([c[0] for c in comps], r1), "DS_2": eng.mkdf([c[0] for c in comps], r2), "DS_3": eng.mkdf([c[0] for c in comps], r3)}
+        s, r = eng.call(eng.run, script, st, dps)
         outs.append((s, r))
     s, r = outs[0]
     if s == "exc":
